@@ -53,6 +53,7 @@ def verdict_checks(run, sc, out, label):
     if full and len(comps) != len(ids):
         run.violate('one_comparison_per_id', 'count', '%s: %d comparisons for %d recording ids' % (label, len(comps), len(ids)))
     verdicts = []
+    kill_victim = []
     for i, c in enumerate(comps):
         rid = ids[i]
         tag = world.tag_of[rid]
@@ -88,7 +89,14 @@ def verdict_checks(run, sc, out, label):
             run.violate('verdict_of_that_recording_alone', 'attributed-to-other-recording:%s' % cause,
                         '%s carries the replay / result of %s (verdict %s)' % (where, attributed_to, name))
             continue
-        if name not in E.ALLOWED[b]:
+        allowed = list(E.ALLOWED[b])
+        if out.killed_when is not None and i in (out.killed_when, out.killed_when + 1) and not kill_victim:
+            # the one recording that meets the worker killed from outside: the one in flight, or - when its answer was
+            # already in the pipe - the next one
+            allowed.append('EqualizerFailure')
+            if name == 'EqualizerFailure' and 'EqualizerFailure' not in E.ALLOWED[b]:
+                kill_victim.append(i)
+        if name not in allowed:
             prev = [world.effective(world.tag_of[ids[j]]) for j in range(i)]
             if b in ('equal', 'slow', 'different', 'comparator_bare_status') and name == 'EqualizerFailure':
                 cause = 'after-timeout' if any(p in ('worker_late_answer', 'worker_hang', 'worker_late_death') for p in prev) else ('after-worker-death' if any(p in ('worker_exit', 'worker_abort') for p in prev) or sc.idle_kill else 'other')
